@@ -257,3 +257,68 @@ def vc_ne_depth_bound(prog):
                                       z3.IntVal(c) + 200 <= z3.IntVal(1000), 'post', extra={'clause': 'depth:default-bound-leaves-stack-headroom', 'value': c}))
     rep.obligations.append(Obligation(f"{rep.name}::depth:default-bound-is-positive[p0]", [], z3.IntVal(c) >= 1, 'post'))
     return fvi, rep
+
+
+def vc_matcher_init(prog):
+    """BaseMatcher.__init__ (every combination of given / omitted optional cut-offs): the thresholds the matcher works with are
+    the ones the caller gave - max_dist or unbounded, max_dist_init or max_dist, log(min_prob_norm) or unbounded - whatever the
+    other switches (non_emitting_states, width, only_edges) say; the non-emitting noise defaults to the emitting one; a fresh
+    matcher is in round 0 without a lattice.  (C05 cut-offs are the caller's; C06/C07: flags do not change the model.)"""
+    from pyvc.interp import INF
+    fv = prog.func(K.BASE, 'BaseMatcher.__init__')
+    st = {}
+
+    def setup(ctx, it):
+        st.clear()
+        opt = lambda nm: None if ctx.choice(2, nm + '-given') == 0 else R(nm)
+        a = {'max_dist': opt('max_dist'), 'max_dist_init': opt('max_dist_init'), 'min_prob_norm': opt('min_prob_norm'), 'obs_noise_ne': opt('obs_noise_ne')}
+        for k in ('max_dist', 'max_dist_init', 'obs_noise_ne'):
+            if a[k] is not None:
+                ctx.assume(a[k] > 0)
+        if a['min_prob_norm'] is not None:
+            ctx.assume(a['min_prob_norm'] > 0, a['min_prob_norm'] <= 1)
+        ctx.assume(R('obs_noise') > 0, R('ne_len_factor') > 0, R('ne_len_factor') <= 1)
+        me = Obj('BaseMatcher')
+        me.tag = 'matcher'
+        st.update(me=me, a=a, logs=[])
+        kw = dict(a, obs_noise=R('obs_noise'), non_emitting_states=B('non_emitting_states'), max_lattice_width=(None if ctx.choice(2, 'width-given') == 0 else I('W')),
+                  only_edges=B('only_edges'), non_emitting_length_factor=R('ne_len_factor'))
+        return [me, Obj('Map')], kw
+
+    def m_log(it, x):
+        r = it.ctx.fresh('log', 'R')
+        x = to_z3(x)
+        it.ctx.assume(z3.Implies(x <= 1, r <= 0), z3.Implies(x == 1, r == 0))
+        st['logs'].append((x, r))
+        return r
+    models = dict(K.base_models())
+    models[('math', 'log')] = Model('math.log', m_log)
+
+    def isinf(v, sign):
+        return isinstance(v, float) and v == sign * INF
+
+    def goals(ctx, res):
+        me, a = st['me'], st['a']
+        f = me.f
+        logof = lambda x: next((r for (y, r) in st['logs'] if eq(y, x) is True or (z3.is_expr(y) and z3.is_expr(x) and y.eq(x))), None)
+        g = [('init:returns-nothing', b2z(res is None))]
+        g.append(('init:max_dist-is-the-given-one-or-unbounded', b2z(eq(f.get('max_dist'), a['max_dist'])) if a['max_dist'] is not None else b2z(isinf(f.get('max_dist'), 1))))
+        g.append(('init:max_dist_init-is-the-given-one-or-max_dist',
+                  b2z(eq(f.get('max_dist_init'), a['max_dist_init'])) if a['max_dist_init'] is not None else
+                  (b2z(eq(f.get('max_dist_init'), a['max_dist'])) if a['max_dist'] is not None else b2z(isinf(f.get('max_dist_init'), 1)))))
+        if a['min_prob_norm'] is not None:
+            lg = logof(a['min_prob_norm'])
+            g.append(('init:min_logprob_norm-is-the-logarithm-of-the-given-probability', b2z(lg is not None and eq(f.get('min_logprob_norm'), lg))))
+        else:
+            g.append(('init:min_logprob_norm-unbounded-when-not-given', b2z(isinf(f.get('min_logprob_norm'), -1))))
+        g.append(('init:non-emitting-noise-defaults-to-the-emitting-noise',
+                  b2z(eq(f.get('obs_noise_ne'), a['obs_noise_ne'] if a['obs_noise_ne'] is not None else R('obs_noise')))))
+        g.append(('init:emitting-noise-stored', b2z(eq(f.get('obs_noise'), R('obs_noise')))))
+        lf = logof(R('ne_len_factor'))
+        g.append(('init:length-factor-is-a-log-probability', z3.And(b2z(lf is not None and eq(f.get('ne_length_factor_log'), lf)), to_z3(f.get('ne_length_factor_log', 1)) <= 0)))
+        g.append(('init:switches-stored-as-given', b2z(zand(eq(b2z(f.get('non_emitting_states')), B('non_emitting_states')), eq(b2z(f.get('only_edges')), B('only_edges'))))))
+        g.append(('init:fresh-matcher-is-in-round-0-without-a-lattice', b2z(zand(eq(f.get('expand_now'), 0), f.get('lattice', 0) is None, f.get('early_stop_idx', 0) is None,
+                                                                             f.get('path', 0) is None))))
+        return g
+    rep = verify_function(prog, fv, setup, goals, models=models, name="BaseMatcher.__init__")
+    return fv, rep
